@@ -219,7 +219,7 @@ def run(ctx, rep):
             if not rec:
                 continue
             for i, pn in enumerate(rec['pnames']):
-                if pn not in ('stream_id', 'topic_id') or i >= len(c.args) or not rec['params'][i].endswith('Identifier'):
+                if pn == 'self' or i >= len(c.args) or not rec['params'][i].endswith('Identifier'):
                     continue
                 e = hb.expr_operand(c.args[i])
                 ok = any(x[0] == 'call' and x[1].split('::')[-1] in CONV for x in walk(e))
@@ -313,6 +313,53 @@ def run(ctx, rep):
                        'a connection is opened to `%s`, not to the configured server address: the TLS session is attempted on a socket to the client\'s own local address and can never be established' % f_[:90])
     if ncon == 0:
         rep.anchor_lost('R13.m', 'TcpStream::connect in iggy::tcp::client')
+
+    rep.rule('R13.n', 'one bad connection does not take the listener down: inside the accept loop of a listener no may-panic site depends on what the connecting peer does (start-up panics before the loop are configuration errors)', floor=2, analysis='A7')
+    for fn in ('server::tcp::tcp_listener::start', 'server::tcp::tcp_tls_listener::start', 'server::quic::listener::start'):
+        if not ctx.has(fn):
+            rep.anchor_lost('R13.n', fn)
+            continue
+        nloop = 0
+        for site in may_panic_sites(ctx, fn):
+            kind, key, where, kb, bb = site
+            if kind.startswith('assert_overflow'):
+                continue
+            acc = [c for c in kb.calls if c.name.split('::')[-1] == 'accept']
+            inacc = any(bb in bl and any(c.bb in bl for c in acc) for h, bl in natural_loops(kb))
+            if not inacc:
+                continue
+            nloop += 1
+            g = panic_guarded(site)
+            rep.ob('R13.n', fn, key[:100], bool(g), where, g if g else
+                   'inside the accept loop `%s` panics when the peer misbehaves (e.g. a failed TLS handshake): the listener task dies and no further connection of this transport is accepted' % key[:80])
+        acc_any = any(c.name.split('::')[-1] == 'accept' for d_ in ctx.facts.body_defs() if d_ == fn or d_.startswith(fn + '::{closure') for c in ctx.body(d_).calls)
+        rep.ob('R13.n', fn, 'accept loop found', acc_any, None, '%d may-panic sites inside the loop' % nloop)
+
+    rep.rule('R13.o', 'hand-written JSON key codec: the statistics map key is written as "{stream}-{topic}-{partition}" and parsed back into the same fields (field order of to_string_key = index each field is parsed from)', floor=3, analysis='A11 tables')
+    KEY = 'iggy::models::stats::CacheMetricsKey'
+    if not ctx.has(KEY + '::to_string_key') or not ctx.has('iggy::models::stats::cache_metrics_serializer::deserialize'):
+        rep.anchor_lost('R13.o', 'CacheMetricsKey::to_string_key / cache_metrics_serializer::deserialize')
+    else:
+        kb = ctx.fn_body(KEY + '::to_string_key')
+        order = []
+        for blk in sorted(kb.reach):
+            for st in kb.stmts(blk):
+                rv = st.get('rv') or {}
+                if rv.get('r') == 'agg' and rv.get('kind') == 'tuple' and len(rv['ops']) >= 2:
+                    order = [canon(kb.pexpr_operand(o), 0, 2).split('.')[-1] for o in rv['ops']]
+        ag = forms_.aggregate_forms(ctx, 'iggy::models::stats::cache_metrics_serializer::deserialize', KEY)
+        if not order or not ag:
+            rep.anchor_lost('R13.o', 'format arguments / CacheMetricsKey aggregate')
+        else:
+            fields = ag[0][0]
+            for i, fname in enumerate(order):
+                m = re.search(r', (\d+)\)\)$', fields.get(fname, ''))
+                ok = bool(m) and int(m.group(1)) == i
+                rep.ob('R13.o', KEY, '%s is part %d of the key' % (fname, i), ok, ag[0][1], None if ok else
+                       'to_string_key writes `%s` as part %d of the key but the deserializer fills it from `%s`: over HTTP/JSON the metrics are attributed to another topic / partition' % (fname, i, fields.get(fname)))
+
+    from props.c05 import journalled_decoders_do_not_validate
+    journalled_decoders_do_not_validate(ctx, rep, 'R13.p')
 
     rep.rule('R13.b2', 'the count written in front of an element loop is the length of the collection the loop writes', floor=7, analysis='A9')
     for fn, ref in sorted(frozen['count_prefixes'].items()):
